@@ -128,6 +128,21 @@ func (v *vm) execMisc() bool {
 			Interpolation: sketchpb.IndexMapping_Interpolation(interp),
 		}
 		v.ok()
+	case "mpedit":
+		// mpedit Q gamma|off|interp value: changes one field of an existing message IN PLACE (the caller owns the message it was given)
+		v.need(4)
+		q := v.getQ(1)
+		switch string(t[2]) {
+		case "gamma":
+			q.Gamma = v.f(3)
+		case "off":
+			q.IndexOffset = v.f(3)
+		case "interp":
+			q.Interpolation = sketchpb.IndexMapping_Interpolation(int32(v.i64(3)))
+		default:
+			panic(bad("variant"))
+		}
+		v.ok()
 	case "mfromproto":
 		v.need(3)
 		var q *sketchpb.IndexMapping
